@@ -302,7 +302,9 @@ pub fn width_probes(ctx: &mut Ctx) {
                 // implementation - the library's missing_some does it, benign/B5 does it for missing - so the
                 // widths stay where a quadratic pass takes seconds, not minutes (a third of the class; an
                 // eighth in the unoptimised profiles)
-                let n = if ctx.profile.starts_with("dev") { n / 8 } else { n / 3 };
+                // ... and never more than 40 000 keys: the hang watchdog allows one evaluation 20 s, which a loaded
+                // machine needs for 87 000 keys (a false "hang" of the thorough tier seen under load)
+                let n = (if ctx.profile.starts_with("dev") { n / 8 } else { n / 3 }).min(40_000);
                 let keys: Vec<Value> = (0..n).map(|i| json!(format!("k{}", i))).collect();
                 let d = json!({"k0": 1, format!("k{}", n - 1): null, format!("k{}", n / 2): false});
                 ctx.check("width:missing", &json!({"missing": keys}), &d);
